@@ -55,7 +55,7 @@ inline ProdMenus prod_menus(bool thorough) {
         /*scheme*/ {"http:", "HTTPS:", "file:", "a:", ""},
         /*slashes*/ {"//", "/", "\\\\", ""},
         /*userinfo*/ {"", "u:p@", "@"},
-        /*host*/ {"example.com", "EXAMPLE.com", "1.2.3.4", "0x7f.1", "a.0XAB", "[1::2]", "[A::100]", EACUTE ".com", "a%2Eb", "LOCALHOST", "loc%61lhost", h16 + ".com", h17, ""},
+        /*host*/ {"example.com", "EXAMPLE.com", "1.2.3.4", "0x7f.1", "a.0XAB", "1.2.3.4%2E", "[1::2]", "[A::100]", EACUTE ".com", "a%2Eb", "LOCALHOST", "loc%61lhost", h16 + ".com", h17, ""},
         /*port*/ {"", ":80", ":443", ":008", ":00", ":1000"},
         /*path*/ {"", "/", "/a/../b/./c", "/a/../b/.c", "/%2e%2E/x", "\\x\\y", "/" + h16 + "/" + h17},
         /*query*/ {"", "?", "?a='" EACUTE " b"},
@@ -69,7 +69,7 @@ inline ProdMenus prod_menus(bool thorough) {
         /*userinfo*/ {"", "u:p@", "@", "u@", ":p@", "u:p:q@x@", EACUTE ":" EACUTE "@"},
         /*host*/ {"example.com", "EXAMPLE.com", "1.2.3.4", "0x7f.1", "1.2.3.4.", "256.1.1.1", "09", "0x", "1.2.3", "[1::2]", "[A::100]",
                   "[::1.2.3.4]", "[1:2:3:4:5:6:7:8]", "[1::2", EACUTE ".com", "xn--nxasmq6b", "xn--", "a%2Eb", "a b", "a^b", "a.b.",
-                  h15, h16, h17, h31, h32, h33 + ".x", h48, "a.0XAB", "srv.0xFf.", "0X7F.1", "LOCALHOST", "loc%61lhost", "localhost", ""},
+                  h15, h16, h17, h31, h32, h33 + ".x", h48, "a.0XAB", "srv.0xFf.", "0X7F.1", "1.2.3.4%2E", "%31.2.3.4.", "0x7f.1%2e", "LOCALHOST", "loc%61lhost", "localhost", ""},
         /*port*/ {"", ":80", ":443", ":21", ":008", ":0", ":65535", ":65536", ":", ":8a", ":9", ":10", ":99", ":100", ":999", ":1000", ":9999", ":10000", ":00", ":0000000000000"},
         /*path*/ {"", "/", "/a/../b/./c", "/%2e%2E/x", "\\x\\y", "/" + h16 + "/" + h17, "/C:/x", "/C|/x", "/..", "/a/..", "//", "/.//x",
                   "/a b", "/" EACUTE, "/%zz", "/" + h31 + "?", "x", "../x", "./", "/a;b=c", "/a/../b/.c", "/x/./y/.well-known/z", "/.a/../b", "/a/.../b/..c"},
